@@ -43,6 +43,8 @@ def grid_strategy(kind, tier):
         c = {"grid": kind, "key": draw(gen.block_keys), "key2": draw(gen.block_keys),
              # the body is deformed / re-posed AFTER the grid object was constructed (as in a running simulation)
              "deform_after": draw(st.sampled_from([True, True, False])), "deform_key": draw(gen.block_keys),
+             # PyElastica's finalize() re-binds every state array of a body to block memory: the grid may only hold the body
+             "rebind_arrays": draw(st.booleans()),
              "point": draw(st.lists(f(-3.0, 3.0), min_size=3, max_size=3)), "force_exp": draw(st.integers(-6, 6))}
         if kind.startswith("rod"):
             planar = kind.endswith("2d")
@@ -56,6 +58,17 @@ def grid_strategy(kind, tier):
         return c
 
     return case()
+
+
+def _rebind(body):
+    """what PyElastica's finalize() does to a body: every state array becomes a NEW array object with the same contents."""
+    for nm in ("position_collection", "director_collection", "velocity_collection", "omega_collection", "radius", "lengths",
+               "tangents", "mass"):
+        v = getattr(body, nm, None)
+        if isinstance(v, np.ndarray):
+            old = v.copy()
+            setattr(body, nm, old.copy())
+            v[...] = 1.0e3  # the old array object is dead: anything still reading it sees garbage
 
 
 def build_grid(case):
@@ -89,6 +102,8 @@ def build_grid(case):
                 getattr(rod, nm)[...] = getattr(other, nm)
             # stretching changes the radius through volume conservation: element-wise factor in [0.6, 1.4]
             rod.radius[...] = rod.radius * (0.6 + 0.8 * rng.random(rod.n_elems))
+            if case.get("rebind_arrays"):
+                _rebind(rod)
         return g, rod, dim, False, None
     geom = dict(case["geom"])
     if kind == "plane":
@@ -111,6 +126,8 @@ def build_grid(case):
         dim = 3
     if deform:
         Q = bodies.apply_pose(body, case["pose"])  # pose set only after the grid exists
+        if case.get("rebind_arrays"):
+            _rebind(body)
     return g, body, dim, True, Q
 
 
